@@ -222,6 +222,18 @@ def check(ix, rep):
     store.check_pastifier_remap(ix, rep)
     nf = _pastifier_fresh(ix, rep)
     rep.floor('pastifier handlers', nf, 30)
+    from sa.rules import memo
+    for m_ in M.standard_monitors(ix):
+        if m_.mode == 'offline':
+            memo.check_offline_memo_renewed(ix, rep, m_)
+    # the node of a sub-specification is shared by all its references: no constructor alters a node it is given
+    from sa.rules import astpure
+    nnc = astpure.check_modules(ix, rep, ('rtamt/syntax/node/',), 'node-ctor')
+    rep.floor('node constructors and accessors checked for stores through parameters', nnc, 60)
+    # a constant declared through the API is the literal it stands for in the inlined text
+    from sa.rules import units as _u
+    nfx = _u.check_forwarding_exact(ix, rep)
+    rep.floor('arguments forwarded from the specification to the ast', nfx, 8)
     explanation = (
         'Parser shape: visitExprId resolves an identifier as declared constant (-> Constant(value)) or sub-spec name (-> the node '
         'bound to it) before any variable handling; visitAssertion registers the node under its name and appends the same object to '
